@@ -344,6 +344,92 @@ fn histories(run: &Run, st: &mut Stats) {
     }
 }
 
+/// (3b) histories that reuse one buffer: the same allocation is refilled in place between two
+/// searches with the same Regex (an address-keyed cache in the program would answer from memory).
+fn buffer_reuse_histories(run: &Run, st: &mut Stats) {
+    let pats = [("needle\\d+", ""), ("ab+c", ""), ("(a+)+b", ""), ("é|needle", ""), ("[^}]*\\}", ""), ("\\bfoo\\b", "i")];
+    let texts = ["a line without the thing at all...", "here is needle42 and abbbc and fooé}", "NEEDLE7 abc foo {x} aab aaab éé    ", "                                   ", "needle1needle22needle333 ab abbc }}", "xxxxxxxxxxxxxxxxxxxxxxxxxxxxxxxabbc"];
+    for (p, f) in pats {
+        let re = regress::Regex::with_flags(p, f).unwrap();
+        let fresh = |t: &str| -> Vec<SMatch> {
+            let r2 = regress::Regex::with_flags(p, f).unwrap();
+            r2.find_iter(t).map(|m| SMatch::from(&m)).collect()
+        };
+        for a in texts {
+            for b in texts {
+                for c in texts {
+                    st.add("evaluations", 1);
+                    st.add("validated", 1);
+                    st.add("buffer_reuse_histories", 1);
+                    let mut buf = String::with_capacity(64);
+                    let mut results = Vec::new();
+                    for t in [a, b, c] {
+                        buf.clear();
+                        buf.push_str(t);
+                        let r: Vec<SMatch> = re.find_iter(&buf).map(|m| SMatch::from(&m)).collect();
+                        results.push((t, r));
+                    }
+                    // in-place edit without reallocation
+                    buf.make_ascii_uppercase();
+                    let up = buf.clone();
+                    let r_up: Vec<SMatch> = re.find_iter(&buf).map(|m| SMatch::from(&m)).collect();
+                    results.push((up.as_str(), r_up));
+                    for (t, r) in &results {
+                        if !r.is_empty() {
+                            st.add("nontrivial", 1);
+                        }
+                        if *r != fresh(t) {
+                            let case = J::obj().set("kind", J::s("history")).set("pattern", J::s(p)).set("flags", J::s(f)).set("history", J::Arr(vec![J::s(a), J::s(b), J::s(c), J::s("(upper-cased in place)")])).set("what", J::s("a search of a reused buffer returns a result that differs from a fresh Regex on the same text")).set("text", J::s(t)).set("expected", crate::sweep::seq_json(&fresh(t))).set("got", crate::sweep::seq_json(r));
+                            st.violation(&run.known, "C19", "result depends on the search history (reused buffer)", p.len(), case);
+                        }
+                    }
+                }
+            }
+        }
+    }
+}
+
+/// (4) Free-running monitor - NOT part of the exhaustive exploration and labelled as such: the same
+/// two-thread bodies on a *fresh* Regex per trial, released from a barrier without the scheduler. It
+/// can see races inside one interpreted instruction (e.g. lazy initialisation on first use), which
+/// the instruction-granularity scheduler cannot produce. A silent run proves nothing.
+fn free_running_monitor(run: &Run, st: &mut Stats, trials: usize) {
+    let cases = [("\\{[^}]*\\}", "", "{x} and {y} now"), ("[a-zé]+", "", "café au lait"), ("(a+)+b", "", "aaab aab"), ("\\bk\\w*", "iu", "Kelvin \u{212A}k k"), ("(?<=\\d)x|y$", "m", "1x2x\ny")];
+    for (p, f, h) in cases {
+        let expected: Vec<SMatch> = regress::Regex::with_flags(p, f).unwrap().find_iter(h).map(|m| SMatch::from(&m)).collect();
+        let mut wrong = 0u64;
+        let mut first_wrong: Option<Vec<SMatch>> = None;
+        for _ in 0..trials {
+            let re = Arc::new(regress::Regex::with_flags(p, f).unwrap());
+            let bar = Arc::new(std::sync::Barrier::new(4));
+            let hs: Vec<_> = (0..4)
+                .map(|_| {
+                    let re = re.clone();
+                    let bar = bar.clone();
+                    std::thread::spawn(move || {
+                        bar.wait();
+                        re.find_iter(h).map(|m| SMatch::from(&m)).collect::<Vec<SMatch>>()
+                    })
+                })
+                .collect();
+            for hd in hs {
+                let r = hd.join().unwrap_or_default();
+                st.add("monitor_searches", 1);
+                if r != expected {
+                    wrong += 1;
+                    if first_wrong.is_none() {
+                        first_wrong = Some(r);
+                    }
+                }
+            }
+        }
+        if let Some(w) = first_wrong {
+            let case = J::obj().set("kind", J::s("free_running")).set("pattern", J::s(p)).set("flags", J::s(f)).set("haystack", J::s(h)).set("what", J::s("four threads searching one freshly compiled Regex at the same moment: a result differs from sequential use")).set("wrong_results", J::u(wrong)).set("trials", J::u(trials as u64)).set("expected", crate::sweep::seq_json(&expected)).set("got", crate::sweep::seq_json(&w));
+            st.violation(&run.known, "C19", "free-running monitor: concurrent first use differs from sequential use", p.len(), case);
+        }
+    }
+}
+
 pub fn c19(run: &mut Run) -> Stats {
     static_assertions();
     let thorough = run.thorough();
@@ -371,11 +457,13 @@ pub fn c19(run: &mut Run) -> Stats {
         explore_scenario(sc, bound, max_schedules, run, &mut st);
     }
     histories(run, &mut st);
+    buffer_reuse_histories(run, &mut st);
+    free_running_monitor(run, &mut st, if thorough { 3000 } else { 400 });
     if st.get("scenarios_capped") > 0 {
         run.caps.push(format!("{} scenarios stopped at the cap of {} schedules (explored depth-first in preemption order)", st.get("scenarios_capped"), max_schedules));
     }
     run.rule = format!(
-        "(1) compile-time: Regex, Match, Error are Send + Sync (the runner does not build otherwise); (2) {} scenarios (8 regexes exercising nested loops, captures, lookaround with saved stack, 1-char loops, backreferences, both executors and the ASCII entry point) x threads on one shared &Regex or on clones: every schedule with at most {} preemption(s), scheduling points = every interpreted instruction / backtrack pop (hook H1), real OS threads under a baton; oracle = sequential result on a fresh compile and an unchanged program fingerprint; (3) every ordered history of 1-3 queries from a 12-query menu on one Regex x 8 regexes; non-trivial = the schedule really overlaps two threads inside the program / the query matches",
+        "(1) compile-time: Regex, Match, Error are Send + Sync (the runner does not build otherwise); (2) {} scenarios (8 regexes exercising nested loops, captures, lookaround with saved stack, 1-char loops, backreferences, both executors and the ASCII entry point) x threads on one shared &Regex or on clones: every schedule with at most {} preemption(s), scheduling points = every interpreted instruction / backtrack pop (hook H1), real OS threads under a baton; oracle = sequential result on a fresh compile and an unchanged program fingerprint; (3) every ordered history of 1-3 queries from a 12-query menu on one Regex x 8 regexes, and every history of three texts written into one reused buffer (same allocation) plus an in-place edit, 6 regexes x 6^3 texts; (4) a free-running monitor (NOT exhaustive, labelled): four threads released from a barrier on a freshly compiled Regex, a few hundred trials, for races inside one instruction; non-trivial = the schedule really overlaps two threads inside the program / the query matches",
         scs.len(),
         bound
     );
